@@ -33,7 +33,9 @@ RESID_STARTS = [1, 7, 28, 100]
 # shapes on which the unchanged program is known to break the property (kept out of the default stream)
 FINDING_SHAPES = ("dup-key-in-block", "atom-removed-by-link", "fragments-out-of-insertion-order",
                   "fragment-in-ring", "multires-first-resid-not-1", "resid-start-0",
-                  "mod-resname-ignored", "mods-without-termini", "mod-ixn-arity")
+                  "mod-resname-ignored", "mods-without-termini", "mod-ixn-arity",
+                  "removed-node-id-equals-version", "link-multiterm-file-order", "block-resid-not-1",
+                  "ff-itp-file-order")
 
 
 def _params(rng, sect=None):
@@ -68,6 +70,10 @@ def gen_ixns(rng, natoms, findings=(), allow_meta=True):
             elif allow_meta and sect != "exclusions" and rng.random() < 0.2:
                 meta["comment"] = "c%d" % rng.randint(0, 9)
             ixns.append(dict(sect=sect, atoms=atoms, params=_params(rng, sect), meta=meta))
+            if sect == "dihedrals" and allow_meta and version == 1 and rng.random() < 0.4:
+                # a multi-term dihedral, properly tagged: both terms must survive (distinct keys)
+                seen.add(tuple(atoms))
+                ixns.append(dict(sect=sect, atoms=list(atoms), params=_params(rng, sect), meta={"version": 2}))
     # group by section (first appearance order), as the parsers' dictionaries do
     order = []
     for i in ixns:
@@ -104,6 +110,9 @@ def gen_ff(rng, findings=(), protein=None, multires=None, syntax=None):
         blocks.append(dict(name=name, nrexcl=rng.choice([1, 1, 1, 0, 2, 3]), syntax=syn,
                            atoms=gen_atoms(rng, name, natoms),
                            ixns=gen_ixns(rng, natoms, findings, allow_meta=(syn == "ff")), dangling=[]))
+    if "block-resid-not-1" in findings:
+        for atom in blocks[0]["atoms"]:
+            atom["resid"] = 5
     if rng.random() < 0.6:
         # real force fields mostly use one exclusion distance
         for block in blocks:
@@ -144,7 +153,30 @@ def gen_ff(rng, findings=(), protein=None, multires=None, syntax=None):
         links.append(dict(kind="replace", resnames=[b["name"] for b in singles],
                           atoms=[("BB", {"charge": rng.choice([0.75, -0.75])}), ("+BB", {})],
                           ixns=[dict(sect="constraints", atoms=["BB", "+BB"], params=_params(rng))]))
-    if "atom-removed-by-link" in findings and rng.random() < 0.5:
+    # a link guarded by [ patterns ] that also replaces an attribute: where the pattern rejects it,
+    # nothing of it may be seen (not its interactions, not its `replace`)
+    if rng.random() < 0.3:
+        probe = rng.choice(singles)["atoms"][0]["atype"]
+        links.append(dict(kind="pattern", resnames=[b["name"] for b in singles],
+                          atoms=[("BB", {"mass": rng.choice([77.0, 78.5])}), ("+BB", {})],
+                          ixns=[dict(sect="pairs", atoms=["BB", "+BB"], params=_params(rng, "pairs"))],
+                          patterns=[["BB", "+BB " + json.dumps({"atype": probe})]],
+                          # an explicit edge: a link whose only interactions are `pairs` gets no edge from the
+                          # .ff reader (only from a later .itp read, finding link-multiterm-file-order)
+                          edges=[("BB", "+BB")]))
+    if "link-multiterm-file-order" in findings:
+        # a .ff link with two terms on the same atoms and no version tag; reading a polyply .itp AFTERWARDS
+        # re-tags them (PolyplyParser.finalize -> treat_link_multiple runs over the whole force field)
+        links.append(dict(kind="multiterm", resnames=[b["name"] for b in singles], atoms=[],
+                          ixns=[dict(sect="pairs", atoms=["BB", "+BB"], params=_params(rng, "pairs")),
+                                dict(sect="pairs", atoms=["BB", "+BB"], params=_params(rng, "pairs") + ["7"])]))
+        if not any(b["syntax"] == "itp" for b in blocks):
+            blocks[-1]["syntax"] = "itp"
+            blocks[-1]["ixns"] = [i for i in blocks[-1]["ixns"] if not i["meta"] and i["sect"] != "impropers"]
+        if not any(b["syntax"] == "ff" for b in blocks) and len(blocks) > 1:
+            blocks[0]["syntax"] = "ff"
+    removal = "atom-removed-by-link" in findings or "removed-node-id-equals-version" in findings
+    if removal and rng.random() < (0.5 if "atom-removed-by-link" in findings else 1.0):
         big = [b for b in singles if len(b["atoms"]) >= 2]
         if big:
             block = rng.choice(big)
@@ -236,6 +268,14 @@ def render_link(link):
         for ixn in link["ixns"]:
             if ixn["sect"] == sect:
                 lines.append(" ".join(ixn["atoms"] + ixn["params"]))
+    if link.get("edges"):
+        lines.append("[ edges ]")
+        for a, b in link["edges"]:
+            lines.append("%s %s" % (a, b))
+    if link.get("patterns"):
+        lines.append("[ patterns ]")
+        for parts in link["patterns"]:
+            lines.append(" ".join(parts))
     if link.get("non_edges"):
         lines.append("[ non-edges ]")
         for a, b in link["non_edges"]:
